@@ -18,8 +18,7 @@ META = dict(
              "the same context closed with one, and a task closes with an error only with a cause in its own or the root "
              "context); the `if` directions with a TIMED excuse: handler_starts_unless_prior_cause / "
              "finally_starts_unless_prior_cause (a handler that has to run has started when the owner closes, or the trace "
-             "splits at the event that sealed its fate - its close without a first command, its acceptance into an already "
-             "failed context, a refused submission - with a cause of failure strictly before that event), "
+             "splits at the event that sealed its fate - its close without a first command or a refused submission - with a cause of failure strictly before that event), "
              "handlers_submitted_after_body, finally_submitted_first, accepted_handlers_close_before_owner_leaves; and for the "
              "model under every steering policy of the gate controller: stall_free (the controller's time-out never fires: no "
              "`stall` event), held_handler_awaits_live, steered_no_deadlock, steered_all_finish, steered_runs_accepted; the "
@@ -30,9 +29,8 @@ META = dict(
         design_ref="DESIGN.md 3 C16"),
     level_note="Partial, as C14. Handlers are observed by their first probe command and by the outcome of their submission. "
                "'Never starts while the other handler is held' is decided through the explicit `stall` event after a generous "
-               "wait (10 s), never through 'did not happen within t'. Finding KF-C16-1 (a handler accepted into an already "
-               "failed context runs detached from its owner: scope.NewChild does not register a child of a done scope) is "
-               "tolerated by the clause `acceptedAfterCause` and counted in the evidence.",
+               "wait (10 s), never through 'did not happen within t'. The witness of the repaired crash (a handler submitted after "
+               "an earlier handler of the same try had failed ran detached from its owner) is replayed 25 / 3000 times per run.",
     technique="Lean 4 proof on the pipeline LTS model (invariant, progress under steering by induction on nesting depth) + verified "
               "trace monitor on recorded executions of the real pip:try, free-running and under steered schedules",
 )
